@@ -294,6 +294,9 @@ func oracle(c CaseIn, o CaseOut, base, baseE plan) verdict {
 	if o.FaultAt >= 0 && !benignKind(c.FaultKind) {
 		// a device-side failure was injected
 		cls := faultClass(c.Scen.Backend, o.Lines, o.FaultAt, c.FaultKind, base, baseE)
+		if strings.HasPrefix(c.FaultKind, "scpfail_") {
+			cls = "save"
+		}
 		pred := "other"
 		if c.FaultKind == "savefail_ok" && cls == "save" {
 			// an error sentence that contains the literal "[OK]": the code looks for the marker only
@@ -337,7 +340,7 @@ func oracle(c CaseIn, o CaseOut, base, baseE plan) verdict {
 				return verdict{false, pred, fmt.Sprintf("%q sent after the failure (%s at the reply to line %d, a %s command)", cl, c.FaultKind, o.FaultAt, cls)}
 			}
 		}
-		if o.ScpRouting && c.Scen.Backend == "Linux" {
+		if o.ScpRouting && c.Scen.Backend == "Linux" && c.FaultKind != "scpfail_routing" {
 			// routing start-up file is copied last: must not happen after a failure
 			return verdict{false, pred, "start-up routing file copied after the failure"}
 		}
@@ -609,6 +612,13 @@ func run(ctx *Ctx) *Result {
 					}
 					cases = append(cases, CaseIn{Scen: s, Tool: "drc", Mode: "approve", FaultPos: pos, FaultKind: k})
 				}
+			}
+		}
+		// Linux: the copy of a start-up file fails (the program runs the `scp` it finds in PATH)
+		if s.Backend == "Linux" {
+			for _, k := range []string{"scpfail_iptables", "scpfail_routing"} {
+				cases = append(cases, CaseIn{Scen: s, Tool: "doapprove", Mode: "approve", FaultPos: -3, FaultKind: k})
+				cases = append(cases, CaseIn{Scen: s, Tool: "drc", Mode: "approve", FaultPos: -3, FaultKind: k})
 			}
 		}
 		// compare mode, drc tool, previous DIFF: a sample of positions
